@@ -318,39 +318,41 @@ theorem findField_none_of_not_mem {k : List Nat} {fields : List Field}
     exact ih h.2
 
 
-/-! ### `PathParams::extract`: the walk computes a by-name table -/
+/-! ### the serde `visit_map` loop computes a by-name table -/
 
 /-- The table the `visit_map` loop builds when nothing fails. -/
-def walkVals (fields : List Field) : List (List Nat × List Nat × Bool) → List (List Nat × Val)
+def walkVals {β : Type} (de : List Nat → Ty → β → Except Err Val) (fields : List Field) :
+    List (List Nat × β) → List (List Nat × Val)
   | [] => []
-  | (k, v, o) :: ps =>
+  | (k, e) :: ps =>
     match findField k fields with
-    | none => walkVals fields ps
+    | none => walkVals de fields ps
     | some f =>
-      match pathField k f.ty v o with
-      | .ok x => (k, x) :: walkVals fields ps
-      | .error _ => walkVals fields ps
+      match de k f.ty e with
+      | .ok x => (k, x) :: walkVals de fields ps
+      | .error _ => walkVals de fields ps
 
-/-- Every parameter that names a field has an acceptable value. -/
-def knownParse (fields : List Field) (dps : List (List Nat × List Nat × Bool)) : Prop :=
-  ∀ p ∈ dps, ∀ f, findField p.1 fields = some f → ∃ x, pathField p.1 f.ty p.2.1 p.2.2 = .ok x
+/-- Every entry that names a field has an acceptable value. -/
+def knownParse {β : Type} (de : List Nat → Ty → β → Except Err Val) (fields : List Field)
+    (dps : List (List Nat × β)) : Prop :=
+  ∀ p ∈ dps, ∀ f, findField p.1 fields = some f → ∃ x, de p.1 f.ty p.2 = .ok x
 
-theorem pathWalk_ok_iff (fields : List Field) :
-    ∀ (dps : List (List Nat × List Nat × Bool)) (acc0 acc : List (List Nat × Val)),
+theorem visitMap_ok_iff {β : Type} (de : List Nat → Ty → β → Except Err Val) (fields : List Field) :
+    ∀ (dps : List (List Nat × β)) (acc0 acc : List (List Nat × Val)),
     (dps.map (·.1)).Nodup → (∀ p ∈ dps, lookup p.1 acc0 = none) →
-    (pathWalk fields dps acc0 = .ok acc ↔ (acc = acc0 ++ walkVals fields dps ∧ knownParse fields dps)) := by
+    (visitMap de fields dps acc0 = .ok acc ↔ (acc = acc0 ++ walkVals de fields dps ∧ knownParse de fields dps)) := by
   intro dps
   induction dps with
   | nil =>
     intro acc0 acc _ _
-    simp [pathWalk, walkVals, knownParse, eq_comm]
+    simp [visitMap, walkVals, knownParse, eq_comm]
   | cons p ps ih =>
     intro acc0 acc hn hfree
-    obtain ⟨k, v, o⟩ := p
+    obtain ⟨k, v⟩ := p
     simp only [List.map_cons, List.nodup_cons] at hn
     have hfree' : ∀ q ∈ ps, lookup q.1 acc0 = none := fun q hq => hfree q (List.mem_cons_of_mem _ hq)
-    have hk : lookup k acc0 = none := hfree (k, v, o) (List.mem_cons_self ..)
-    simp only [pathWalk, walkVals]
+    have hk : lookup k acc0 = none := hfree (k, v) (List.mem_cons_self ..)
+    simp only [visitMap, walkVals]
     cases hf : findField k fields with
     | none =>
       simp only []
@@ -367,14 +369,14 @@ theorem pathWalk_ok_iff (fields : List Field) :
         exact ⟨h1, fun q hq f hqf => h2 q (List.mem_cons_of_mem _ hq) f hqf⟩
     | some f =>
       simp only [hk]
-      cases hp : pathField k f.ty v o with
+      cases hp : de k f.ty v with
       | error e =>
         simp only []
         constructor
         · intro h
           cases h
         · rintro ⟨_, h2⟩
-          obtain ⟨x, hx⟩ := h2 (k, v, o) (List.mem_cons_self ..) f hf
+          obtain ⟨x, hx⟩ := h2 (k, v) (List.mem_cons_self ..) f hf
           simp [hp] at hx
       | ok x =>
         simp only []
@@ -400,47 +402,48 @@ theorem pathWalk_ok_iff (fields : List Field) :
         · rintro ⟨h1, h2⟩
           exact ⟨by simp [h1], fun q hq g hqg => h2 q (List.mem_cons_of_mem _ hq) g hqg⟩
 
-theorem lookup_walkVals_none {fields : List Field} {k : List Nat} :
-    ∀ {dps : List (List Nat × List Nat × Bool)}, k ∉ dps.map (·.1) → lookup k (walkVals fields dps) = none := by
+theorem lookup_walkVals_none {β : Type} {de : List Nat → Ty → β → Except Err Val} {fields : List Field}
+    {k : List Nat} :
+    ∀ {dps : List (List Nat × β)}, k ∉ dps.map (·.1) → lookup k (walkVals de fields dps) = none := by
   intro dps
   induction dps with
   | nil => intro _; simp [walkVals, lookup]
   | cons p ps ih =>
     intro h
-    obtain ⟨k', v, o⟩ := p
+    obtain ⟨k', v⟩ := p
     simp only [List.map_cons, List.mem_cons, not_or] at h
     simp only [walkVals]
     cases findField k' fields with
     | none => exact ih h.2
     | some f =>
       simp only []
-      cases pathField k' f.ty v o with
+      cases de k' f.ty v with
       | error e => exact ih h.2
       | ok x =>
         simp only [lookup]
         rw [if_neg (fun e => h.1 e.symm)]
         exact ih h.2
 
-/-- With distinct parameter names and distinct field names, the table maps each field's name to
-    the parse of the parameter of that name. -/
-theorem lookup_walkVals {fields : List Field} {f : Field}
-    (hfn : (fields.map (·.name)).Nodup) (hf : f ∈ fields) :
-    ∀ {dps : List (List Nat × List Nat × Bool)}, (dps.map (·.1)).Nodup →
-    lookup f.name (walkVals fields dps) =
+/-- With distinct entry keys and distinct field names, the table maps each field's name to `de` of
+    the entry of that name. -/
+theorem lookup_walkVals {β : Type} {de : List Nat → Ty → β → Except Err Val} {fields : List Field}
+    {f : Field} (hfn : (fields.map (·.name)).Nodup) (hf : f ∈ fields) :
+    ∀ {dps : List (List Nat × β)}, (dps.map (·.1)).Nodup →
+    lookup f.name (walkVals de fields dps) =
       match lookup f.name dps with
-      | some (v, o) => (match pathField f.name f.ty v o with | .ok x => some x | .error _ => none)
+      | some e => (match de f.name f.ty e with | .ok x => some x | .error _ => none)
       | none => none := by
   intro dps
   induction dps with
   | nil => intro _; simp [walkVals, lookup]
   | cons p ps ih =>
     intro hn
-    obtain ⟨k, v, o⟩ := p
+    obtain ⟨k, v⟩ := p
     simp only [List.map_cons, List.nodup_cons] at hn
     by_cases hk : k = f.name
     · subst hk
       simp only [walkVals, findField_of_mem_nodup hfn hf, lookup, if_true]
-      cases hp : pathField f.name f.ty v o with
+      cases hp : de f.name f.ty v with
       | error e => simpa using lookup_walkVals_none hn.1
       | ok x => simp [lookup]
     · simp only [walkVals, lookup, if_neg hk]
@@ -448,63 +451,65 @@ theorem lookup_walkVals {fields : List Field} {f : Field}
       | none => exact ih hn.2
       | some g =>
         simp only []
-        cases pathField k g.ty v o with
+        cases de k g.ty v with
         | error e => exact ih hn.2
         | ok x =>
           simp only [lookup, if_neg hk]
           exact ih hn.2
 
-theorem finishOne_eq_spec {fields : List Field} {f : Field} {dps : List (List Nat × List Nat × Bool)}
+theorem finishOne_eq_spec {β : Type} {de : List Nat → Ty → β → Except Err Val} {fields : List Field}
+    {f : Field} {dps : List (List Nat × β)}
     (hfn : (fields.map (·.name)).Nodup) (hf : f ∈ fields) (hdn : (dps.map (·.1)).Nodup)
-    (hk : knownParse fields dps) :
-    finishOne (walkVals fields dps) f = pathFieldSpec dps f := by
-  unfold finishOne pathFieldSpec
+    (hk : knownParse de fields dps) :
+    finishOne (walkVals de fields dps) f = fieldSpec de dps f := by
+  unfold finishOne fieldSpec
   rw [lookup_walkVals hfn hf hdn]
   cases hl : lookup f.name dps with
   | none => rfl
-  | some vo =>
-    obtain ⟨v, o⟩ := vo
+  | some v =>
     have hm := lookup_some_mem hl
-    obtain ⟨x, hx⟩ := hk (f.name, v, o) hm f (findField_of_mem_nodup hfn hf)
+    obtain ⟨x, hx⟩ := hk (f.name, v) hm f (findField_of_mem_nodup hfn hf)
+    simp only at hx
     simp only [hx]
 
-theorem finishFields_eq_spec {dps : List (List Nat × List Nat × Bool)} {acc : List (List Nat × Val)} :
-    ∀ (fs : List Field), (∀ f ∈ fs, finishOne acc f = pathFieldSpec dps f) →
-    ∀ vals, (finishFields fs acc = .ok vals ↔ pathSpec dps fs = some vals) := by
+theorem finishFields_eq_spec {β : Type} {de : List Nat → Ty → β → Except Err Val}
+    {dps : List (List Nat × β)} {acc : List (List Nat × Val)} :
+    ∀ (fs : List Field), (∀ f ∈ fs, finishOne acc f = fieldSpec de dps f) →
+    ∀ vals, (finishFields fs acc = .ok vals ↔ structSpec de dps fs = some vals) := by
   intro fs
   induction fs with
-  | nil => intro _ vals; simp [finishFields, pathSpec, eq_comm]
+  | nil => intro _ vals; simp [finishFields, structSpec, eq_comm]
   | cons f fs ih =>
     intro h vals
     have hf := h f (List.mem_cons_self ..)
     have ih' := ih (fun g hg => h g (List.mem_cons_of_mem _ hg))
-    simp only [finishFields, pathSpec, hf]
-    cases hs : pathFieldSpec dps f with
+    simp only [finishFields, structSpec, hf]
+    cases hs : fieldSpec de dps f with
     | error e => simp
     | ok v =>
       simp only []
       cases hr : finishFields fs acc with
       | error e =>
-        cases hq : pathSpec dps fs with
+        cases hq : structSpec de dps fs with
         | none => simp
         | some r => exact absurd ((ih' r).mpr hq) (by simp [hr])
       | ok r =>
         have := (ih' r).mp hr
         simp [this]
 
-theorem pathSpec_ok_field {dps : List (List Nat × List Nat × Bool)} :
-    ∀ {fs : List Field} {vals : List (List Nat × Val)}, pathSpec dps fs = some vals →
-    ∀ f ∈ fs, ∃ v, pathFieldSpec dps f = .ok v := by
+theorem structSpec_ok_field {β : Type} {de : List Nat → Ty → β → Except Err Val} {dps : List (List Nat × β)} :
+    ∀ {fs : List Field} {vals : List (List Nat × Val)}, structSpec de dps fs = some vals →
+    ∀ f ∈ fs, ∃ v, fieldSpec de dps f = .ok v := by
   intro fs
   induction fs with
   | nil => intro _ _ f hf; cases hf
   | cons g fs ih =>
     intro vals h f hf
-    simp only [pathSpec] at h
-    cases hs : pathFieldSpec dps g with
+    simp only [structSpec] at h
+    cases hs : fieldSpec de dps g with
     | error e => simp [hs] at h
     | ok v =>
-      cases hr : pathSpec dps fs with
+      cases hr : structSpec de dps fs with
       | none => simp [hs, hr] at h
       | some r =>
         rcases List.mem_cons.mp hf with e | hf'
@@ -512,18 +517,44 @@ theorem pathSpec_ok_field {dps : List (List Nat × List Nat × Bool)} :
           exact ⟨v, hs⟩
         · exact ih hr f hf'
 
-theorem knownParse_of_spec {fields : List Field} {dps : List (List Nat × List Nat × Bool)}
+theorem knownParse_of_spec {β : Type} {de : List Nat → Ty → β → Except Err Val} {fields : List Field}
+    {dps : List (List Nat × β)}
     {vals : List (List Nat × Val)} (hdn : (dps.map (·.1)).Nodup)
-    (h : pathSpec dps fields = some vals) : knownParse fields dps := by
+    (h : structSpec de dps fields = some vals) : knownParse de fields dps := by
   intro p hp f hpf
   obtain ⟨hfm, hname⟩ := findField_some hpf
-  obtain ⟨v, hv⟩ := pathSpec_ok_field h f hfm
-  obtain ⟨k, val, o⟩ := p
+  obtain ⟨v, hv⟩ := structSpec_ok_field h f hfm
+  obtain ⟨k, val⟩ := p
   simp only at hname hpf ⊢
   subst hname
-  unfold pathFieldSpec at hv
+  unfold fieldSpec at hv
   rw [lookup_of_mem_nodup hdn hp] at hv
   exact ⟨v, hv⟩
+
+/-- The loop followed by the missing-field pass succeeds exactly when the by-name specification
+    does, with the same struct. -/
+theorem visit_finish_iff {β : Type} (de : List Nat → Ty → β → Except Err Val) (fields : List Field)
+    (dps : List (List Nat × β)) (hfn : (fields.map (·.name)).Nodup) (hdn : (dps.map (·.1)).Nodup)
+    (vals : List (List Nat × Val)) :
+    visitStruct de fields dps = .ok vals ↔ structSpec de dps fields = some vals := by
+  unfold visitStruct
+  have hw := visitMap_ok_iff de fields dps []
+  constructor
+  · intro h
+    cases hwk : visitMap de fields dps [] with
+    | error e => simp [hwk] at h
+    | ok acc =>
+      simp only [hwk] at h
+      obtain ⟨hacc, hk⟩ := (hw acc hdn (by intro p _; simp [lookup])).mp hwk
+      simp only [List.nil_append] at hacc
+      subst hacc
+      exact (finishFields_eq_spec fields (fun f hf => finishOne_eq_spec hfn hf hdn hk) vals).mp h
+  · intro h
+    have hk := knownParse_of_spec hdn h
+    have hwk : visitMap de fields dps [] = .ok (walkVals de fields dps) :=
+      (hw _ hdn (by intro p _; simp [lookup])).mpr ⟨by simp, hk⟩
+    simp only [hwk]
+    exact (finishFields_eq_spec fields (fun f hf => finishOne_eq_spec hfn hf hdn hk) vals).mpr h
 
 theorem decodeParams_keys : ∀ {params : List (List Nat × List Nat)} {dps : List (List Nat × List Nat × Bool)},
     decodeParams params = .ok dps → dps.map (·.1) = params.map (·.1) := by
@@ -542,5 +573,257 @@ theorem decodeParams_keys : ∀ {params : List (List Nat × List Nat)} {dps : Li
         subst h
         simp [ih hr]
     · cases h
+
+
+/-! ### serde_html_form: grouping by key -/
+
+theorem mem_keys_groupInsert {k : List Nat} {v : List Nat × Bool} {x : List Nat} :
+    ∀ {g : List (List Nat × List (List Nat × Bool))},
+    x ∈ (groupInsert k v g).map (·.1) ↔ x ∈ g.map (·.1) ∨ x = k := by
+  intro g
+  induction g with
+  | nil => simp [groupInsert]
+  | cons p g ih =>
+    obtain ⟨k', vs⟩ := p
+    simp only [groupInsert]
+    split
+    · rename_i e
+      subst e
+      simp only [List.map_cons, List.mem_cons]
+      constructor
+      · intro h; exact Or.inl h
+      · rintro (h | h)
+        · exact h
+        · exact Or.inl h
+    · simp only [List.map_cons, List.mem_cons, ih]
+      constructor
+      · rintro (h | h | h)
+        · exact Or.inl (Or.inl h)
+        · exact Or.inl (Or.inr h)
+        · exact Or.inr h
+      · rintro ((h | h) | h)
+        · exact Or.inl h
+        · exact Or.inr (Or.inl h)
+        · exact Or.inr (Or.inr h)
+
+theorem groupInsert_nodup {k : List Nat} {v : List Nat × Bool} :
+    ∀ {g : List (List Nat × List (List Nat × Bool))},
+    (g.map (·.1)).Nodup → ((groupInsert k v g).map (·.1)).Nodup := by
+  intro g
+  induction g with
+  | nil => intro _; simp [groupInsert]
+  | cons p g ih =>
+    intro hn
+    obtain ⟨k', vs⟩ := p
+    simp only [List.map_cons, List.nodup_cons] at hn
+    simp only [groupInsert]
+    split
+    · simpa using hn
+    · rename_i hne
+      simp only [List.map_cons, List.nodup_cons]
+      refine ⟨?_, ih hn.2⟩
+      rw [mem_keys_groupInsert]
+      rintro (h | h)
+      · exact hn.1 h
+      · exact hne h
+
+theorem groupEntries_nodup :
+    ∀ (ps : List (List Nat × List Nat × Bool)) (acc : List (List Nat × List (List Nat × Bool))),
+    (acc.map (·.1)).Nodup → ((groupEntries ps acc).map (·.1)).Nodup := by
+  intro ps
+  induction ps with
+  | nil => intro acc h; simpa [groupEntries] using h
+  | cons p ps ih =>
+    intro acc h
+    obtain ⟨k, v, o⟩ := p
+    simp only [groupEntries]
+    exact ih _ (groupInsert_nodup h)
+
+theorem lookup_groupInsert (k : List Nat) (v : List Nat × Bool) (k' : List Nat) :
+    ∀ (g : List (List Nat × List (List Nat × Bool))),
+    lookup k' (groupInsert k v g) =
+      if k' = k then some ((match lookup k g with | some vs => vs | none => []) ++ [v]) else lookup k' g := by
+  intro g
+  induction g with
+  | nil =>
+    simp only [groupInsert, lookup]
+    by_cases h : k' = k
+    · simp [h]
+    · have : ¬ k = k' := fun e => h e.symm
+      simp [h, this]
+  | cons p g ih =>
+    obtain ⟨k0, vs⟩ := p
+    simp only [groupInsert]
+    by_cases h0 : k0 = k
+    · subst h0
+      simp only [if_true, lookup]
+      by_cases h : k' = k0
+      · subst h
+        simp
+      · have : ¬ k0 = k' := fun e => h e.symm
+        simp [h, this]
+    · simp only [if_neg h0, lookup]
+      by_cases h1 : k0 = k'
+      · subst h1
+        simp [h0]
+      · simp only [if_neg h1, ih]
+
+/-- How the occurrences of a key combine with what was already grouped. -/
+def mergeOcc (o : Option (List (List Nat × Bool))) (occ : List (List Nat × Bool)) :
+    Option (List (List Nat × Bool)) :=
+  match o, occ with
+  | some vs, occ => some (vs ++ occ)
+  | none, [] => none
+  | none, occ => some occ
+
+theorem lookup_groupEntries (k : List Nat) :
+    ∀ (ps : List (List Nat × List Nat × Bool)) (acc : List (List Nat × List (List Nat × Bool))),
+    lookup k (groupEntries ps acc) = mergeOcc (lookup k acc) (occurrences k ps) := by
+  intro ps
+  induction ps with
+  | nil =>
+    intro acc
+    simp only [groupEntries, occurrences]
+    cases lookup k acc <;> simp [mergeOcc]
+  | cons p ps ih =>
+    intro acc
+    obtain ⟨k', v, o⟩ := p
+    simp only [groupEntries, occurrences]
+    rw [ih, lookup_groupInsert]
+    by_cases h : k' = k
+    · subst h
+      simp only [if_true]
+      cases lookup k' acc with
+      | none => simp [mergeOcc]
+      | some vs => simp [mergeOcc]
+    · have : ¬ k = k' := fun e => h e.symm
+      simp only [if_neg h, if_neg this]
+
+theorem fieldSpec_grouped (ps : List (List Nat × List Nat × Bool)) (f : Field) :
+    fieldSpec formField (groupEntries ps []) f = formFieldSpec ps f := by
+  unfold fieldSpec formFieldSpec
+  rw [lookup_groupEntries]
+  simp only [lookup]
+  cases occurrences f.name ps with
+  | nil => simp [mergeOcc]
+  | cons x xs => simp [mergeOcc]
+
+theorem structSpec_grouped (ps : List (List Nat × List Nat × Bool)) :
+    ∀ (fs : List Field), structSpec formField (groupEntries ps []) fs = formSpec ps fs := by
+  intro fs
+  induction fs with
+  | nil => simp [structSpec, formSpec]
+  | cons f fs ih => simp only [structSpec, formSpec, fieldSpec_grouped, ih]
+
+
+/-! ### decoding the raw parameters -/
+
+/-- `EncodedParamValue::decode` on one raw parameter. -/
+def decodeOne (p : List Nat × List Nat) : List Nat × List Nat × Bool :=
+  (p.1, percentDecode p.2, percentDecode p.2 != p.2)
+
+theorem decodeParams_ok_iff : ∀ {params : List (List Nat × List Nat)} {dps : List (List Nat × List Nat × Bool)},
+    decodeParams params = .ok dps ↔
+      (∀ p ∈ params, utf8Valid (percentDecode p.2) = true) ∧ dps = params.map decodeOne := by
+  intro params
+  induction params with
+  | nil =>
+    intro dps
+    simp only [decodeParams, Except.ok.injEq, List.map_nil]
+    constructor
+    · intro h; subst h; exact ⟨(by intro p hp; cases hp), rfl⟩
+    · rintro ⟨_, h⟩; exact h.symm
+  | cons p ps ih =>
+    intro dps
+    obtain ⟨k, raw⟩ := p
+    simp only [decodeParams, List.mem_cons, forall_eq_or_imp, List.map_cons]
+    by_cases hv : utf8Valid (percentDecode raw) = true
+    · simp only [hv, if_true, true_and]
+      cases hr : decodeParams ps with
+      | error e =>
+        simp only []
+        constructor
+        · intro h; cases h
+        · rintro ⟨h1, _⟩
+          have := (ih (dps := ps.map decodeOne)).mpr ⟨h1, rfl⟩
+          simp [hr] at this
+      | ok r =>
+        obtain ⟨h1, h2⟩ := ih.mp hr
+        subst h2
+        simp only [Except.ok.injEq]
+        constructor
+        · intro h; subst h; exact ⟨h1, rfl⟩
+        · rintro ⟨_, h⟩; rw [h]; rfl
+    · simp [hv]
+
+theorem decodeParams_error {params : List (List Nat × List Nat)} {e : Err}
+    (h : decodeParams params = .error e) :
+    ∃ p ∈ params, utf8Valid (percentDecode p.2) = false ∧ e = .invalidUtf8 p.1 := by
+  induction params with
+  | nil => simp [decodeParams] at h
+  | cons p ps ih =>
+    obtain ⟨k, raw⟩ := p
+    simp only [decodeParams] at h
+    split at h
+    · cases hr : decodeParams ps with
+      | error e' =>
+        simp only [hr, Except.error.injEq] at h
+        subst h
+        obtain ⟨q, hq, h1, h2⟩ := ih hr
+        exact ⟨q, List.mem_cons_of_mem _ hq, h1, h2⟩
+      | ok r => simp [hr] at h
+    · rename_i hv
+      simp only [Except.error.injEq] at h
+      exact ⟨(k, raw), List.mem_cons_self .., by simpa using hv, h.symm⟩
+
+theorem structSpec_lookup {β : Type} {de : List Nat → Ty → β → Except Err Val} {dps : List (List Nat × β)} :
+    ∀ {fs : List Field} {vals : List (List Nat × Val)}, structSpec de dps fs = some vals →
+    (fs.map (·.name)).Nodup → ∀ f ∈ fs, ∀ v, fieldSpec de dps f = .ok v → lookup f.name vals = some v := by
+  intro fs
+  induction fs with
+  | nil => intro _ _ _ f hf; cases hf
+  | cons g fs ih =>
+    intro vals h hn f hf v hv
+    simp only [List.map_cons, List.nodup_cons] at hn
+    simp only [structSpec] at h
+    cases hs : fieldSpec de dps g with
+    | error e => simp [hs] at h
+    | ok w =>
+      cases hr : structSpec de dps fs with
+      | none => simp [hs, hr] at h
+      | some r =>
+        simp only [hs, hr, Option.some.injEq] at h
+        subst h
+        simp only [lookup]
+        rcases List.mem_cons.mp hf with e | hf'
+        · subst e
+          simp only [if_true]
+          rw [hs] at hv
+          cases hv
+          rfl
+        · have : g.name ≠ f.name := by
+            intro e
+            exact hn.1 (e ▸ List.mem_map.mpr ⟨f, hf', rfl⟩)
+          rw [if_neg this]
+          exact ih hr hn.2 f hf' v hv
+
+theorem structSpec_names {β : Type} {de : List Nat → Ty → β → Except Err Val} {dps : List (List Nat × β)} :
+    ∀ {fs : List Field} {vals : List (List Nat × Val)}, structSpec de dps fs = some vals →
+    vals.map (·.1) = fs.map (·.name) := by
+  intro fs
+  induction fs with
+  | nil => intro vals h; simp [structSpec] at h; subst h; rfl
+  | cons g fs ih =>
+    intro vals h
+    simp only [structSpec] at h
+    cases hs : fieldSpec de dps g with
+    | error e => simp [hs] at h
+    | ok w =>
+      cases hr : structSpec de dps fs with
+      | none => simp [hs, hr] at h
+      | some r =>
+        simp only [hs, hr, Option.some.injEq] at h
+        subst h
+        simp [ih hr]
 
 end Pxv.ReqData
